@@ -34,6 +34,11 @@ def correspondence(ctx, model_ok):
     cases = []
     for _ in range(n):
         dump = gen.random_circuit(ctx.rng, with_blocks=False)
+        if ctx.rng.random() < 0.12:
+            dump = gen.malformed_variant(ctx.rng, dump)   # separate malformed stream: error paths
+            r.count('stream', 'malformed')
+        else:
+            r.count('stream', 'well-formed')
         case = evalcorr.make_case(ctx.rng, dump, n_assign=ctx.n(64, 256), n_vec=ctx.n(4, 16))
         cases.append(case)
         r.add_case(case, any(t != 'INPUT' for _, t, _ in dump['gates']))
